@@ -106,59 +106,92 @@ func c03lGen(t *rapid.T) c03lScenario {
 		s.Legacy = append(s.Legacy, c03lLegacy{Slot: nPods - 1 - i,
 			Present: rapid.Bool().Draw(t, "legacyPresent"), UID: rapid.IntRange(0, 2).Draw(t, "legacyUID") == 0})
 	}
-	// Histories are drawn with a small abstract model of each pod (has an object / has a
-	// sandbox) that only steers the WEIGHTS: every operation stays possible in every
-	// state, the interpretation in run() never consults this model.
-	type pm struct{ obj, sandbox, ever bool }
+	// Histories are drawn with a small abstract model of each pod's lifecycle that only
+	// steers the CHOICE of the next operation: two thirds of the steps take a "natural"
+	// next step of some pod (create, get bound, ADD, DEL or object deletion in either
+	// order, flush, reconcile), one third is an arbitrary operation on an arbitrary pod.
+	// Every operation stays possible in every state; run() never consults this model.
+	type pm struct{ obj, bound, sandbox, ever, delPending, reported bool }
 	model := make([]pm, nPods)
 	for _, lg := range s.Legacy {
 		if lg.Present {
-			model[lg.Slot] = pm{obj: true, sandbox: true, ever: true}
-		}
-	}
-	pick := func(label string, pairs ...interface{}) string {
-		var bag []string
-		for i := 0; i+1 < len(pairs); i += 2 {
-			for j := 0; j < pairs[i+1].(int); j++ {
-				bag = append(bag, pairs[i].(string))
-			}
-		}
-		return rapid.SampledFrom(bag).Draw(t, label)
-	}
-	n := rapid.IntRange(1, vt.Scale(30, 50)).Draw(t, "nOps")
-	for i := 0; i < n; i++ {
-		op := c03lOp{}
-		if rapid.IntRange(0, 99).Draw(t, "global") < 45 {
-			op.K = pick("gkind", "reconcile", 12, "flush", 4, "gc", 3, "syncdel", 1, "restartd", 1, "restartc", 1)
+			model[lg.Slot] = pm{obj: true, bound: true, sandbox: true, ever: true}
 		} else {
-			op.P = rapid.IntRange(0, nPods-1).Draw(t, "pod")
-			m := &model[op.P]
-			switch {
-			case !m.obj && !m.ever:
-				op.K = pick("pkind0", "create", 16, "add", 1, "del", 1, "delobj", 1, "phase", 1)
-			case !m.obj:
-				op.K = pick("pkind1", "create", 8, "add", 1, "del", 8, "delobj", 1, "phase", 1)
-			case !m.sandbox:
-				op.K = pick("pkind2", "create", 1, "add", 10, "del", 3, "delobj", 4, "phase", 1)
-			default:
-				op.K = pick("pkind3", "create", 1, "add", 3, "del", 7, "delobj", 6, "phase", 2)
+			model[lg.Slot] = pm{ever: true}
+		}
+	}
+	natural := func(m *pm) []string {
+		switch {
+		case !m.obj && m.sandbox:
+			return []string{"del", "del", "gc", "reconcile"}
+		case !m.obj && m.delPending:
+			return []string{"flush", "flush", "reconcile"}
+		case !m.obj && (m.reported || m.ever):
+			return []string{"reconcile", "reconcile", "reconcile", "gc", "syncdel", "create"}
+		case !m.obj:
+			return []string{"create"}
+		case !m.bound:
+			return []string{"reconcile"}
+		case m.delPending:
+			return []string{"flush", "flush", "delobj"}
+		case !m.sandbox:
+			return []string{"add", "add", "add", "delobj"}
+		default:
+			return []string{"del", "del", "del", "delobj", "delobj", "phase"}
+		}
+	}
+	anyPod := []string{"create", "add", "add", "del", "del", "delobj", "phase"}
+	anyGlobal := []string{"reconcile", "reconcile", "reconcile", "reconcile", "flush", "flush", "gc", "gc", "syncdel", "restartd", "restartc"}
+	n := rapid.IntRange(4, vt.Scale(30, 50)).Draw(t, "nOps")
+	for i := 0; i < n; i++ {
+		op := c03lOp{P: rapid.IntRange(0, nPods-1).Draw(t, "pod")}
+		switch r := rapid.IntRange(0, 99).Draw(t, "how"); {
+		case r < 66:
+			op.K = rapid.SampledFrom(natural(&model[op.P])).Draw(t, "natural")
+		case r < 85:
+			op.K = rapid.SampledFrom(anyPod).Draw(t, "anyPod")
+		default:
+			op.K = rapid.SampledFrom(anyGlobal).Draw(t, "anyGlobal")
+		}
+		m := &model[op.P]
+		switch op.K {
+		case "create":
+			if !m.obj {
+				*m = pm{obj: true, delPending: m.delPending, sandbox: m.sandbox}
 			}
-			switch op.K {
-			case "create":
-				m.obj = true
-			case "add":
-				if m.obj {
-					m.sandbox, m.ever = true, true
-				}
-			case "del":
+		case "add":
+			if m.obj && m.bound {
+				m.sandbox, m.ever = true, true
+			}
+		case "del":
+			if m.sandbox {
+				m.delPending = true
+			}
+			m.sandbox = false
+		case "delobj":
+			m.obj, m.bound = false, false
+		case "phase":
+			if m.obj {
 				m.sandbox = false
-			case "delobj":
-				m.obj = false
-			case "phase":
-				if m.obj {
-					m.sandbox = false
+			}
+		case "flush":
+			for j := range model {
+				if model[j].delPending {
+					model[j].delPending, model[j].reported = false, true
 				}
 			}
+		case "reconcile":
+			for j := range model {
+				if model[j].obj {
+					model[j].bound = true
+				} else if model[j].reported {
+					model[j].reported, model[j].ever = false, false
+				}
+			}
+		}
+		switch op.K {
+		case "reconcile", "flush", "gc", "syncdel", "restartd", "restartc":
+			op.P = 0
 		}
 		switch op.K {
 		case "add":
@@ -173,8 +206,8 @@ func c03lGen(t *rapid.T) c03lScenario {
 			op.A = rapid.SampledFrom([]int{0, 0, 0, 0, 1, 2}).Draw(t, "podExist")
 			op.B = rapid.SampledFrom([]int{0, 0, 0, 0, 0, 1}).Draw(t, "writeFails")
 		case "reconcile":
-			op.A = rapid.SampledFrom([]int{0, 0, 0, 1, 1, 1, 1, 2, 3, 4, 5}).Draw(t, "flags")
-			if rapid.IntRange(0, 7).Draw(t, "cloudFaults") == 0 {
+			op.A = rapid.SampledFrom([]int{0, 0, 0, 0, 1, 1, 1, 1, 1, 2, 3, 4, 5}).Draw(t, "flags")
+			if rapid.IntRange(0, 9).Draw(t, "cloudFaults") == 0 {
 				nf := rapid.IntRange(1, 3).Draw(t, "nFaults")
 				for j := 0; j < nf; j++ {
 					op.Faults = append(op.Faults, rapid.SampledFrom([]int{0, 1, 1, 2}).Draw(t, "fault"))
@@ -220,20 +253,36 @@ func (k *c03lK8s) PodExist(namespace, name string) (bool, error) {
 	return ok, err
 }
 
+// c03lSandbox is the container runtime's view of one pod sandbox the harness started.
 type c03lSandbox struct {
 	uid, cid string
 	ips      []string
+	ok       bool // its ADD succeeded
+	up       bool // not torn down yet
 }
 
 type c03lSlot struct {
-	inc      int
-	uid      string // uid of the pod object, "" when there is none
-	exited   bool
-	seq      int
-	live     *c03lSandbox // runtime's view: the sandbox that is up
-	lastCID  string       // container id of the last ADD attempt
-	lastUID  string
-	staleCID string // container id of an earlier, superseded or torn down sandbox
+	inc    int
+	uid    string // uid of the pod object, "" when there is none
+	exited bool
+	seq    int
+	boxes  []*c03lSandbox // in start order
+}
+
+// superseded: a later sandbox of the same pod came up (its ADD succeeded), so a DEL
+// for this one is a late or repeated DEL that says nothing about the pod any more.
+func (sl *c03lSlot) superseded(x *c03lSandbox) bool {
+	after := false
+	for _, b := range sl.boxes {
+		if b == x {
+			after = true
+			continue
+		}
+		if after && b.uid == x.uid && b.ok {
+			return true
+		}
+	}
+	return false
 }
 
 type c03lWorld struct {
@@ -385,8 +434,7 @@ func c03lNewWorld(c *vt.Ctx, s c03lScenario) *c03lWorld {
 			if lg.Present {
 				w.createPodObject(lg.Slot, uid)
 				// a running pod taken over: its sandbox is up, the agent has no record of it
-				sl.live = &c03lSandbox{uid: uid, cid: fmt.Sprintf("c%d-legacy", lg.Slot), ips: ips}
-				sl.lastCID, sl.lastUID = sl.live.cid, uid
+				sl.boxes = append(sl.boxes, &c03lSandbox{uid: uid, cid: fmt.Sprintf("c%d-legacy", lg.Slot), ips: ips, ok: true, up: true})
 			}
 		}
 		cur := &networkv1beta1.Node{}
@@ -630,8 +678,10 @@ func (w *c03lWorld) opPhase(op c03lOp) {
 	w.must(w.cl.Status().Update(w.ctx, pod), "pod phase")
 	sl.exited = true
 	// the containers and the sandbox of a finished pod are down
-	if sl.live != nil && sl.live.uid == sl.uid {
-		sl.live = nil
+	for _, b := range sl.boxes {
+		if b.uid == sl.uid {
+			b.up = false
+		}
 	}
 }
 
@@ -641,14 +691,18 @@ func (w *c03lWorld) opAdd(op c03lOp) {
 		w.c.Trace("  (kubelet starts no sandbox: no live pod object)")
 		return
 	}
-	if sl.live != nil {
-		// kubelet stops the old sandbox before it creates a new one; its DEL may come later
-		sl.staleCID = sl.live.cid
-		sl.live = nil
+	// kubelet stops the previous sandbox of THIS pod before it creates a new one (its
+	// DEL may come late or twice); a sandbox of an earlier pod of the same name lives
+	// on until its own DEL
+	for _, b := range sl.boxes {
+		if b.uid == sl.uid {
+			b.up = false
+		}
 	}
 	sl.seq++
 	cid := fmt.Sprintf("c%d-%d", op.P, sl.seq)
-	sl.lastCID, sl.lastUID = cid, sl.uid
+	box := &c03lSandbox{uid: sl.uid, cid: cid}
+	sl.boxes = append(sl.boxes, box)
 	ctx, cancel := context.WithTimeout(w.ctx, 20*time.Second)
 	defer cancel()
 	reply, err := w.svc.AllocIP(ctx, &rpc.AllocIPRequest{
@@ -676,7 +730,7 @@ func (w *c03lWorld) opAdd(op c03lOp) {
 	if w.delIssued[sl.uid] {
 		w.c.Label("re-add-after-del(same uid)")
 	}
-	sl.live = &c03lSandbox{uid: sl.uid, cid: cid, ips: ips}
+	box.ips, box.ok, box.up = ips, true, true
 	if op.A == 1 && len(ips) > 0 {
 		pod := &corev1.Pod{}
 		w.must(w.cl.Get(w.ctx, client.ObjectKey{Namespace: "ns", Name: c03lPodName(op.P)}, pod), "get pod")
@@ -691,34 +745,44 @@ func (w *c03lWorld) opAdd(op c03lOp) {
 
 func (w *c03lWorld) opDel(op c03lOp) {
 	sl := w.slots[op.P]
-	cid, uid, current := sl.lastCID, sl.lastUID, true
-	if op.A == 1 {
-		cid, current = sl.staleCID, false
-		if cid == "" {
-			cid = fmt.Sprintf("c%d-unknown", op.P)
-		}
-	}
-	if cid == "" {
+	// A=0: DEL for the most recently started sandbox; A=1: for the one before it (a
+	// late or repeated DEL), or for a container id the agent never saw
+	var box *c03lSandbox
+	cid := fmt.Sprintf("c%d-unknown", op.P)
+	switch {
+	case op.A == 0 && len(sl.boxes) > 0:
+		box = sl.boxes[len(sl.boxes)-1]
+	case op.A == 1 && len(sl.boxes) > 1:
+		box = sl.boxes[len(sl.boxes)-2]
+	case op.A == 0:
 		w.c.Trace("  (no sandbox was ever started)")
 		return
+	}
+	if box != nil {
+		cid = box.cid
 	}
 	ctx, cancel := context.WithTimeout(w.ctx, 20*time.Second)
 	defer cancel()
 	_, err := w.svc.ReleaseIP(ctx, &rpc.ReleaseIPRequest{
 		K8SPodName: c03lPodName(op.P), K8SPodNamespace: "ns", K8SPodInfraContainerId: cid,
 	})
-	w.c.Trace("    DEL %s (current=%v): err=%v", cid, current, err)
-	if !current {
-		w.c.Label("del:stale-container-id")
+	if box == nil {
+		w.c.Trace("    DEL %s (unknown container): err=%v", cid, err)
+		w.c.Label("del:unknown-container-id")
 		return
 	}
 	// the runtime tears the sandbox down whatever the plugin answers
-	if sl.live != nil && sl.live.cid == cid {
-		sl.live = nil
+	box.up = false
+	late := sl.superseded(box)
+	w.c.Trace("    DEL %s (pod %s, superseded by a later sandbox of that pod=%v): err=%v", cid, box.uid, late, err)
+	if late {
+		w.c.Label("del:superseded-sandbox")
+		return
 	}
 	if err == nil {
-		w.delIssued[uid] = true
-		w.c.Label("del:current")
+		// a DEL for the pod's (last) sandbox was processed
+		w.delIssued[box.uid] = true
+		w.c.Label("del:latest-sandbox")
 	}
 }
 
@@ -769,8 +833,10 @@ func (w *c03lWorld) opGC(op c03lOp) {
 			}
 		}
 		for k, sl := range w.slots {
-			if c03lPodID(k) == name && sl.lastUID != "" {
-				w.verified[sl.lastUID] = true
+			if c03lPodID(k) == name {
+				for _, b := range sl.boxes {
+					w.verified[b.uid] = true
+				}
 			}
 		}
 	}
@@ -896,25 +962,33 @@ func (w *c03lWorld) opReconcile(i int, op c03lOp) {
 // on the GC's API re-check ("verified no longer exist") is accepted by the statement
 // whatever the sandbox does, so it is not flagged.
 func (w *c03lWorld) strict(i int, tch c03cloud.Touch) {
+	if tch.PodUID == "" || w.verified[tch.PodUID] {
+		return
+	}
 	for k, sl := range w.slots {
-		if c03lPodID(k) != tch.PodID || sl.live == nil || sl.live.uid != tch.PodUID || tch.PodUID == "" || w.verified[tch.PodUID] {
+		if c03lPodID(k) != tch.PodID {
 			continue
 		}
-		uses := false
-		for _, ip := range sl.live.ips {
-			if ip == tch.IP {
-				uses = true
+		for _, b := range sl.boxes {
+			if b.uid != tch.PodUID || !b.up {
+				continue
 			}
+			uses := false
+			for _, ip := range b.ips {
+				if ip == tch.IP {
+					uses = true
+				}
+			}
+			if !uses {
+				continue
+			}
+			if vt.Known(c03lKnownReAdd) {
+				w.c.Label("known:" + c03lKnownReAdd)
+				return
+			}
+			w.c.Fatalf("step %d (reconcile): %s -- the teardown report for %s belongs to an earlier sandbox of the pod; its sandbox %s is still up on this address (no DEL was issued for it, no GC verified the pod gone)",
+				i, tch, tch.PodUID, b.cid)
 		}
-		if !uses {
-			continue
-		}
-		if vt.Known(c03lKnownReAdd) {
-			w.c.Label("known:" + c03lKnownReAdd)
-			return
-		}
-		w.c.Fatalf("step %d (reconcile): %s -- the teardown report for %s belongs to an earlier sandbox of the pod; its sandbox %s is still up on this address (no DEL was issued for it, no GC verified the pod gone)",
-			i, tch, tch.PodUID, sl.live.cid)
 	}
 }
 
